@@ -1068,16 +1068,17 @@ Proof.
     destruct Ed as [Ed ->]. destruct Ea as [Ea ->]. simpl in Hfmt. injection Hsg as Hn Hab.
     assert (Hcc : f_custom sp ++ f_extra sp = []).
     { destruct (f_custom sp ++ f_extra sp) as [|[n i] l] eqn:E; [reflexivity|]. exfalso.
-      assert (Hin : In (n, i) (f_custom sp ++ f_extra sp)) by (rewrite E; now left).
+      assert (Hin : In (n, i) ((n, i) :: l)) by now left.
       apply Hcust in Hin. apply nth_kinds in Hin.
       destruct (kind_at_cases d i) as [[E' _]|[[E' _]|[[E' _]|[[E' _]|E']]]]; rewrite E' in Hin; discriminate. }
     apply app_eq_nil in Hcc as [Hc1 Hc2].
     repeat split; auto.
     + now apply Hdesc.
     + destruct (a_loc d) as [l|] eqn:El.
-      * apply Hloc. unfold ks. rewrite (nth_kinds_le _ _ (Bl _ El)). now rewrite (kind_at_loc d l Hdis El).
-      * destruct (f_loc sp) as [i|] eqn:E; [|reflexivity]. exfalso. apply Hloc in E. apply nth_kinds in E.
-        destruct (kind_at_cases d i) as [[E' _]|[[E' _]|[[E' _]|[[E' El']|E']]]]; rewrite E' in E; try discriminate.
+      * apply Hloc. unfold ks. rewrite (nth_kinds_le _ _ (Bl _ eq_refl)). now rewrite (kind_at_loc d l Hdis El).
+      * destruct (f_loc sp) as [i|] eqn:E; [|reflexivity]. exfalso.
+        pose proof (proj1 (Hloc i) eq_refl) as E2. apply nth_kinds in E2.
+        destruct (kind_at_cases d i) as [[E' _]|[[E' _]|[[E' _]|[[E' El']|E']]]]; rewrite E' in E2; try discriminate.
         congruence.
 Qed.
 
